@@ -8,6 +8,8 @@ import MdVerif.Lemmas.PlaceholdersXPost
 import MdVerif.Lemmas.F.PlaceholdersBasic
 
 namespace MdVerif.NoCtlF
+variable [MdVerif.NoCtlF.HtmlBound]
+set_option linter.unusedSectionVars false
 open Py
 open MdVerif.NoCtl hiding Bnd Clean DNode EscOK FNode FoundOK HISpec IsTok ItemOK RawNode SNode Splice StOK StrW TNode WF WF.append WF.mono WF.nil WF.of_noCtl WF.ph WF.plain WF.split WF.split_aux WF.tok WFO WNode bnd_cons_right bnd_nil_left bnd_nil_right bnd_snoc_left domChar_inner domS_escToken domS_placeholder domS_tok find_ph_escToken find_ph_wf inner inner_digit inner_ne isTok_escToken isTok_placeholder noCtl_of_wf tok_append_split tok_split wf_escToken wf_false_zero_iff wf_placeholder
 open MdVerif.NoCtlX (replaceAux_append_of_not_mem)
